@@ -1,12 +1,15 @@
 (* Extraction of the executable models to OCaml (ocaml/model.ml).  ExtrOcamlBasic only:
    bool, option, list, prod, unit, sumbool map to OCaml's; Z/N/positive/nat stay inductives.
-   No Extract Constant / Extract Inductive directives beyond those of ExtrOcamlBasic. *)
+   No Extract Constant / Extract Inductive directives beyond those of ExtrOcamlBasic.
+   Edited through tools/coqadd.py (keeps the (*END*) marker last). *)
 From Coq Require Import Extraction ExtrOcamlBasic ZArith.
 From V Require Import Arith.FindIfDefs.
-
+From V Require Import Proto.RefElectDefs.
 Extraction Blacklist List String Int.
 Cd "../ocaml".
 Extraction "model.ml"
   Z.add Z.mul Z.opp Z.div Z.modulo Z.quot Z.rem Z.of_nat Z.to_nat
-  find_par find_par_w find_seq bulk_indices.
+  find_par find_par_w find_seq bulk_indices
+  RefElect.step RefElect.init RefElect.delivered RefElect.quiescent
+  (*END*).
 Cd "../coq".
